@@ -168,7 +168,7 @@ Proof.
   intros Hs Hg. exists 1. rewrite p_primary_S.
   destruct r as [|t r]; [reflexivity|].
   destruct t; try reflexivity; try discriminate Hs.
-  destruct o; try reflexivity. rewrite (Hg r eq_refl). reflexivity.
+  destruct o; try reflexivity. rewrite (scan_false_b _ _ _ (Hg r eq_refl)). reflexivity.
 Qed.
 
 Lemma R_prim_call x r args r2 :
